@@ -26,7 +26,7 @@
 (* A parse state is st = [p, far]: cursor and furthest-failure register    *)
 (* (runtime/src/state.rs); far.p = -1 stands for None.                     *)
 (***************************************************************************)
-EXTENDS PegDenot, PegCorpus
+EXTENDS PegDenot
 
 VARIABLES
   gi,      \* index of the grammar under test            (constant after Init)
@@ -42,6 +42,8 @@ VARIABLES
 vars == <<gi, txt, ctl, stack, cache, depth, evals, att, hist>>
 
 G == Grammars[gi]
+
+FT(ri) == FieldTables[gi][ri]
 
 ---------------------------------------------------------------------------
 \* error kinds (ParseErrorSpecifics), uniform records
@@ -86,7 +88,10 @@ Attempt(p, kind) == [p |-> p, k |-> kind, la |-> InLookahead]
 EvInc(r, p) == IF <<r, p>> \in DOMAIN evals THEN [evals EXCEPT ![<<r, p>>] = @ + 1]
                ELSE (<<r, p>> :> 1) @@ evals
 
-Unch(vs) == UNCHANGED vs
+\* ghosts are not recorded for "lean" corpora (long inputs, e.g. the front end reading grammar files)
+Log(ev)    == IF G.lean THEN hist ELSE Append(hist, ev)
+LogAll(es) == IF G.lean THEN hist ELSE hist \o es
+Att(S)     == IF G.lean THEN att ELSE att \cup S
 
 ---------------------------------------------------------------------------
 Init ==
@@ -112,7 +117,7 @@ InitExtra ==
 \* entering a rule: tracer start, nesting + 1
 EnterRule(ri, st, ce, cskip) ==
   /\ depth' = depth + 1
-  /\ hist' = Append(hist, [ev |-> "enter", r |-> G.rules[ri].name, p |-> st.p])
+  /\ hist' = Log([ev |-> "enter", r |-> G.rules[ri].name, p |-> st.p])
   /\ stack' = Push([k |-> "rule", ri |-> ri, st0 |-> st, ce |-> ce, cskip |-> cskip,
                     best |-> RuleErr("best", NoFar)])
   /\ ctl' = [m |-> "rule", ri |-> ri, st |-> st]
@@ -136,7 +141,7 @@ SkipWsBuiltin ==
 SkipWsUser ==
   /\ ctl.m = "eval" /\ IsAtom(Node(G, ctl.e)) /\ ctl.skip /\ ~ctl.wsd /\ G.ws > 0
   /\ depth' = depth + 1
-  /\ hist' = Append(hist, [ev |-> "enter", r |-> G.rules[G.ws].name, p |-> ctl.st.p])
+  /\ hist' = Log([ev |-> "enter", r |-> G.rules[G.ws].name, p |-> ctl.st.p])
   /\ stack' = Append(Push([k |-> "ws", e |-> ctl.e, skip |-> ctl.skip]),
                      [k |-> "rule", ri |-> G.ws, st0 |-> ctl.st, ce |-> -1, cskip |-> ctl.skip,
                       best |-> RuleErr("best", NoFar)])
@@ -167,7 +172,7 @@ TermOk(st, len) ==
 
 TermFail(st, kind) ==
   /\ ctl' = RetErr(Rep(st, kind))
-  /\ att' = att \cup {Attempt(st.p, kind)}
+  /\ att' = Att({Attempt(st.p, kind)})
 
 Lit ==
   /\ Ready("lit")
@@ -274,7 +279,7 @@ CallChar ==
         THEN /\ ctl' = RetOk([st EXCEPT !.p = st.p + r.len], CallMs(n, VChar(r.c)))
              /\ att' = att
         ELSE /\ ctl' = RetErr(Rep(st, KClass(G.rules[n.ri].name)))
-             /\ att' = att \cup r.atts
+             /\ att' = Att(r.atts)
   /\ UNCHANGED <<gi, txt, stack, cache, depth, evals, hist>>
 
 \* @extern rules: the user function sees the remaining input; not traced
@@ -284,7 +289,7 @@ CallExtern ==
          st == ctl.st
          r == G.rules[n.ri]
          x == ExternOracle(r.fn, Rest(txt, st.p))
-     IN /\ hist' = Append(hist, [ev |-> "ext", r |-> r.name, p |-> st.p])
+     IN /\ hist' = Log([ev |-> "ext", r |-> r.name, p |-> st.p])
         /\ IF x.ok
            THEN /\ ctl' = RetOk([st EXCEPT !.p = st.p + x.n], CallMs(n, x.v))
                 /\ att' = att
@@ -395,8 +400,8 @@ NegFail ==     \* the body matched
   /\ ctl.m = "ret" /\ ctl.ok /\ stack # <<>> /\ Top.k = "neg"
   /\ stack' = Pop
   /\ ctl' = RetErr(Rep(Top.st, KNeg))
-  /\ att' = att \cup {[p |-> Top.st.p, k |-> KNeg,
-                       la |-> \E i \in 1..(Len(stack) - 1) : stack[i].k \in {"neg", "pos"}]}
+  /\ att' = Att({[p |-> Top.st.p, k |-> KNeg,
+                        la |-> \E i \in 1..(Len(stack) - 1) : stack[i].k \in {"neg", "pos"}]})
   /\ UNCHANGED <<gi, txt, cache, depth, evals, hist>>
 
 PosEnter ==
@@ -433,7 +438,7 @@ IsMemo(r) == r.memoize /\ ~r.leftrec
 
 StartBody(ri, st) ==
   /\ ctl' = Eval(G.rules[ri].body, st, G.rules[ri].skip, FALSE)
-  /\ evals' = EvInc(ri, st.p)
+  /\ evals' = IF G.lean THEN evals ELSE EvInc(ri, st.p)
 
 PlainBody ==
   /\ ctl.m = "rule" /\ ~G.rules[ctl.ri].memoize /\ ~G.rules[ctl.ri].leftrec
@@ -449,22 +454,22 @@ RuleBody ==
          m  == IF r.memoize \/ r.leftrec THEN "rres" ELSE "rret"
      IN IF ~ctl.ok
         THEN ctl' = RuleErr(m, ctl.err) /\ att' = att /\ hist' = hist
-        ELSE LET v == Build(G, txt, ri, RuleFields(G, ri), ctl.ms, Top.st0.p, ctl.st.p)
+        ELSE LET v == Build(G, txt, ri, FT(ri), ctl.ms, Top.st0.p, ctl.st.p)
                  bad == {i \in 1..Len(r.checks) : ~CheckOracle(r.checks[i], v)}
                  nchk == IF bad = {} THEN Len(r.checks) ELSE CHOOSE i \in bad : \A j \in bad : i <= j
-             IN /\ hist' = hist \o [i \in 1..nchk |-> [ev |-> "chk", r |-> r.name, p |-> ctl.st.p]]
+             IN /\ hist' = LogAll([i \in 1..nchk |-> [ev |-> "chk", r |-> r.name, p |-> ctl.st.p]])
                 /\ IF bad = {}
                    THEN ctl' = RuleOk(m, ctl.st, v) /\ att' = att
                    ELSE LET kind == KCheck(r.checks[nchk].name) IN
                         /\ ctl' = RuleErr(m, Rep(ctl.st, kind))
-                        /\ att' = att \cup {Attempt(ctl.st.p, kind)}
+                        /\ att' = Att({Attempt(ctl.st.p, kind)})
   /\ UNCHANGED <<gi, txt, stack, cache, depth, evals>>
 
 \* tracer result, nesting - 1; hand the result to the calling construct
 RuleExit ==
   /\ ctl.m = "rret" /\ stack # <<>> /\ Top.k = "rule"
   /\ depth' = depth - 1
-  /\ hist' = Append(hist, [ev |-> "exit", r |-> G.rules[Top.ri].name,
+  /\ hist' = Log([ev |-> "exit", r |-> G.rules[Top.ri].name,
                            p |-> IF ctl.ok THEN ctl.st.p ELSE ctl.err.p])
   /\ stack' = Pop
   /\ IF Top.ce = 0
@@ -484,7 +489,7 @@ Finish ==
 MemoHit ==
   /\ ctl.m = "rule" /\ IsMemo(G.rules[ctl.ri]) /\ <<ctl.ri, ctl.st.p>> \in DOMAIN cache
   /\ ctl' = [cache[<<ctl.ri, ctl.st.p>>] EXCEPT !.m = "rret"]
-  /\ hist' = Append(hist, [ev |-> "info", r |-> "hit", p |-> ctl.st.p])
+  /\ hist' = Log([ev |-> "info", r |-> "hit", p |-> ctl.st.p])
   /\ UNCHANGED <<gi, txt, stack, cache, depth, evals, att>>
 
 MemoMiss ==
@@ -503,7 +508,7 @@ MemoStore ==   \* successes and failures alike
 LrHit ==
   /\ ctl.m = "rule" /\ G.rules[ctl.ri].leftrec /\ <<ctl.ri, ctl.st.p>> \in DOMAIN cache
   /\ ctl' = [cache[<<ctl.ri, ctl.st.p>>] EXCEPT !.m = "rret"]
-  /\ hist' = Append(hist, [ev |-> "info", r |-> "lrhit", p |-> ctl.st.p])
+  /\ hist' = Log([ev |-> "info", r |-> "lrhit", p |-> ctl.st.p])
   /\ UNCHANGED <<gi, txt, stack, cache, depth, evals, att>>
 
 LrSeed ==      \* plant the sentinel failure, start the first evaluation
@@ -511,7 +516,7 @@ LrSeed ==      \* plant the sentinel failure, start the first evaluation
   /\ LET best == RuleErr("best", Rep(ctl.st, KSentinel)) IN
      /\ cache' = (<<ctl.ri, ctl.st.p>> :> best) @@ cache
      /\ stack' = ReplTop([Top EXCEPT !.best = best])
-  /\ hist' = Append(hist, [ev |-> "info", r |-> "lrloop", p |-> ctl.st.p])
+  /\ hist' = Log([ev |-> "info", r |-> "lrloop", p |-> ctl.st.p])
   /\ StartBody(ctl.ri, ctl.st)
   /\ UNCHANGED <<gi, txt, depth, att>>
 
@@ -522,7 +527,7 @@ LrGrow ==
   /\ LET best == [ctl EXCEPT !.m = "best"] IN
      /\ cache' = (<<Top.ri, Top.st0.p>> :> best) @@ cache
      /\ stack' = ReplTop([Top EXCEPT !.best = best])
-  /\ hist' = Append(hist, [ev |-> "info", r |-> "lrloop", p |-> Top.st0.p])
+  /\ hist' = Log([ev |-> "info", r |-> "lrloop", p |-> Top.st0.p])
   /\ StartBody(Top.ri, Top.st0)
   /\ UNCHANGED <<gi, txt, depth, att>>
 
@@ -573,20 +578,24 @@ TreeExact == Done /\ ctl.ok /\ D.ok => ctl.v = D.v
 \* C01 / C07 termination, safety form: a rule is never re-entered at the same
 \* offset while it is still active, except through the left-recursion cache
 RuleFrames == {i \in 1..Len(stack) : stack[i].k = "rule"}
+\* (checked when a frame has just been pushed, against every frame below it: by induction that is
+\* the property for all pairs)
 NoReentry ==
-  \A i, j \in RuleFrames :
-     (i < j /\ stack[i].ri = stack[j].ri /\ stack[i].st0.p = stack[j].st0.p)
-        => G.rules[stack[i].ri].leftrec
+  ctl.m = "rule" =>
+    \A i \in 1..(Len(stack) - 1) :
+       (stack[i].k = "rule" /\ stack[i].ri = Top.ri /\ stack[i].st0.p = Top.st0.p)
+          => G.rules[Top.ri].leftrec
 
 \* every closure iteration consumes, every growth step is strictly further
 CloProgress == [][CloIter => ctl.st.p > Top.st.p]_vars
 LrProgress  == [][(LrGrow /\ Top.best.ok) => ctl.st.p > Top.best.st.p]_vars
 
 \* C04: every cursor value is on a character boundary inside the input
+IsBoundary(p) == p \in 0..txt.n /\ (p = txt.n \/ txt.cpAt[p] # -1)
 OnBoundary ==
-  /\ (ctl.m \in {"eval", "rule"} => ctl.st.p \in Boundaries(txt))
-  /\ (ctl.m \in {"ret", "rret", "rres", "fin", "done"} /\ ctl.ok => ctl.st.p \in Boundaries(txt))
-  /\ (ctl.m \in {"ret", "rret", "rres", "fin", "done"} /\ ~ctl.ok => ctl.err.p \in Boundaries(txt))
+  /\ (ctl.m \in {"eval", "rule"} => IsBoundary(ctl.st.p))
+  /\ (ctl.m \in {"ret", "rret", "rres", "fin", "done"} /\ ctl.ok => IsBoundary(ctl.st.p))
+  /\ (ctl.m \in {"ret", "rret", "rres", "fin", "done"} /\ ~ctl.ok => IsBoundary(ctl.err.p))
 
 \* C06: a memoized body is evaluated at most once per offset
 Memoized == {ri \in 1..NumRules(G) : G.rules[ri].kind = "rule" /\ IsMemo(G.rules[ri])}
@@ -601,7 +610,7 @@ PackratBound == AllMemoized => TotalEvals <= NumRules(G) * (txt.n + 1)
 \* C03 / C02: the number of matches of each field fits the declared arity
 CountSound ==
   (ctl.m = "ret" /\ ctl.ok /\ stack # <<>> /\ Top.k = "rule" /\ ~G.rules[Top.ri].string)
-     => CountSoundAt(RuleFields(G, Top.ri), ctl.ms)
+     => CountSoundAt(FT(Top.ri), ctl.ms)
 
 \* C10
 Failed == Done /\ ~ctl.ok
